@@ -161,19 +161,10 @@ func checkC11(ctx *Ctx, c *Case, rounds int) error {
 	for g := range privs {
 		privs[g] = model.BuildP(t, d.ProtoReflect())
 	}
-	// sequential reference, computed on an equal but separate message so that
-	// the shared one is first touched by the concurrent readers (a lazily
-	// materialised container would otherwise be warmed up here)
-	seq := model.BuildP(t, d.ProtoReflect())
-	want := make([][]string, maxG)
-	for g := 0; g < maxG; g++ {
-		for _, op := range byG[g] {
-			want[g] = append(want[g], c11Op(op.Op, seq, privs[g]))
-		}
-	}
 	if procs := c.argInt("procs"); procs > 0 {
 		defer runtime.GOMAXPROCS(runtime.GOMAXPROCS(procs))
 	}
+	var want [][]string
 	for round := 0; round < rounds; round++ {
 		got := make([][]string, maxG)
 		var wg sync.WaitGroup
@@ -199,6 +190,19 @@ func checkC11(ctx *Ctx, c *Case, rounds int) error {
 		}
 		close(start)
 		wg.Wait()
+		if want == nil {
+			// The sequential reference is computed only AFTER the first concurrent
+			// round, on an equal but separate message: the shared message - and,
+			// for the first case of each type in a process, the type's own lazily
+			// initialised state - is first touched by the concurrent readers.
+			seq := model.BuildP(t, d.ProtoReflect())
+			want = make([][]string, maxG)
+			for g := 0; g < maxG; g++ {
+				for _, op := range byG[g] {
+					want[g] = append(want[g], c11Op(op.Op, seq, privs[g]))
+				}
+			}
+		}
 		for g := 0; g < maxG; g++ {
 			if panics[g] != nil {
 				return fmt.Errorf("goroutine %d panicked while reading the shared message: %v", g, panics[g])
